@@ -255,9 +255,11 @@ Definition classify170 (s : list N) : N :=
   end.
 
 (* ------------------------------ suite 180 ------------------------------ *)
-(* input: k, mode (0 = only call k fails, 1 = call k and all later fail), then a 160 case *)
+(* input: k, mode, then a 160 case.  mode mod 2: 0 = only call k fails, 1 = call k and all later fail.  mode / 2 is
+   the caller's style (0: every link closed with finish(); 1: the per-link writers are dropped; 2: set_add_newlines
+   called again before every link and before the final finish()), which must not matter *)
 Definition fail_of (k mode : N) (i : nat) : bool :=
-  if mode =? 0 then N.of_nat i =? k else k <=? N.of_nat i.
+  if mode mod 2 =? 0 then N.of_nat i =? k else k <=? N.of_nat i.
 
 Definition run180 (s : list N) : list N :=
   match s with
@@ -290,7 +292,7 @@ Definition classify180 (s : list N) : N :=
   | k :: mode :: r =>
     match rd_case160 r with
     | None => 0
-    | Some (nl, d) => if k <? len (doc_chunks true nl (doc_of_in d)) then 1 + mode else 3
+    | Some (nl, d) => if k <? len (doc_chunks true nl (doc_of_in d)) then 1 + mode mod 2 else 3
     end
   | _ => 0
   end.
